@@ -287,8 +287,8 @@ class SDecimalOut:
 class SContext:
     """decimal.Context with a symbolic precision: create_decimal(int) rounds half-even to prec digits"""
 
-    def __init__(self):
-        self.prec = 28
+    def __init__(self, prec=28, **kw):
+        self.prec = prec
 
     def create_decimal(self, n):
         _used("decimal.Context.create_decimal(int): exact when the integer has at most prec digits, else ROUND_HALF_EVEN")
